@@ -34,6 +34,21 @@ CLAIMED = {
  'C16': dict(level='exploration', design='5.16',
    text="Virtual-time runs of interval (new-thread and default scheduler), timer, delay, timeout, sample and debounce over scripted sources with gaps from a tie-free grid, with a slow consumer for timeout and re-subscription for interval/timer. Exact configuration: (virtual instant, event) pairs must equal the closed-form expectation. Jitter configuration (sleeps return up to 30 ms late), reported separately: lower bounds, order, no loss/duplication, and no timeout unless a gap exceeded d.",
    technique='deterministic simulation: virtual clock + seeded scheduling of timer/source threads; exact and jitter configurations with separate oracles'),
+ 'C01': dict(level='exploration', design='5.1',
+   text="Generated pipelines over every operator of the crate (nested to depth 3 quick / 5 thorough, also the degenerate pipeline with the subscriber directly on the source) over 1..3 hot / cold / subject sources whose scripts carry the protocol-violation fault (events after the terminal, both terminals, repeated terminals, and re-entrant emission from inside the subscriber's callback), stepped in a generated sequential interleaving inside the simulator. Oracle: the contract automaton next* (error|complete)? at the recording subscriber and is_subscribed()==false after the terminal.",
+   technique='deterministic simulation (single driver task): generated pipelines x injected protocol-violation faults x step orders; contract automaton',
+   note="Single driver task under the simulator runtime (self-deadlocks, livelocks and panics end the run and are left to C07). Sampling of an unbounded program x script space; a clean batch is evidence, not proof."),
+ 'C05': dict(level='exploration', design='5.5',
+   text="Sequential family: generated pipelines over well-formed hot/subject/cold sources with unsubscribe (or dropping a utils::Using guard) injected at every kind of position (before the first item, between events, after the terminal, repeatedly, from inside a callback) while the driver keeps stepping the sources. Threaded family: sources on their own simulated threads (with and without polling is_subscribed), short value-preserving pipelines with and without observe_on, unsubscribe from the main or a third thread at a scheduler-chosen point. Oracle with conservative stamps: no delivery whose emission started after unsubscribe returned; is_subscribed true until the first terminal/unsubscribe and false ever after.",
+   technique='deterministic simulation: cancel fault at every script position (sequential) + seeded interleavings of unsubscribe with emitting threads'),
+ 'C06': dict(level='fault_enumeration', design='5.6',
+   text="pipeline = down(probe(cause)) over hot instrumented sources, real Subjects and unbounded producers: the cause (take, first, element_at, take_while, take_until, contains, all, sequence_equal, dematerialize on a Complete/Error item, amb, retry, an erroring input of merge/zip/flat_map, the source's own terminal, external unsubscribe) lands at generated positions and the driver keeps stepping every source afterwards. Oracle: after the probe saw the cause finish (and after the subscriber's terminal / unsubscribe) every emission attempt of a source below it sees is_subscribed()==false, subjects hold no observer, nothing is delivered, unbounded producers stop; amb losers and failed retry attempts as stated.",
+   technique='deterministic simulation (single driver task): terminating cause x position enumeration by generation; is_subscribed probes inside instrumented sources',
+   note="The instant an operator has all it needs is observed by a pass-through probe stage written like the crate's own map. Sampling, not enumeration of all pipelines."),
+ 'C17': dict(level='fault_enumeration', design='5.17',
+   text="Generated pipelines (optionally with observe_on/subscribe_on) over finite sources; a counting token is cloned into the three subscribe callbacks, every operator closure and every item; endings: complete, error, cancel at every position. The harness then drops its Observable, Subscription and source handles and lets workers drain. Oracle: no owner of a token is left.",
+   technique='deterministic simulation: ending-cause x position faults; drop-counting token conservation at quiescence',
+   note="Only subscriptions that ended are judged. The harness stores token-free copies of recorded items."),
  # -- more claimed
 }
 NA = {
